@@ -38,11 +38,27 @@ impl Parker {
         }
         *t = false;
     }
-    /// Under the controlled scheduler time does not pass: a timed park never
-    /// times out (returns `true` like a notified park).
+    /// Under the controlled scheduler time does not pass; a timeout is modelled
+    /// as a scheduling outcome: the parker yields once and, if it is scheduled
+    /// again before a token was deposited, the park "times out" (returns
+    /// `false`). Every placement of the timeout relative to the other threads'
+    /// steps is therefore explored (within the preemption bound).
     pub fn park_timeout(&self, _duration: Duration) -> bool {
-        self.park();
-        true
+        {
+            let mut t = self.inner.token.lock().unwrap();
+            if *t {
+                *t = false;
+                return true;
+            }
+        }
+        shuttle::thread::yield_now();
+        let mut t = self.inner.token.lock().unwrap();
+        if *t {
+            *t = false;
+            true
+        } else {
+            false
+        }
     }
     pub fn unpark(&self) -> bool {
         self.unparker().unpark()
